@@ -93,6 +93,100 @@ pub fn c01_origin<N: Nd>(n: &mut N, kind: u8, ck: u8) {
     vcover!(!legal && refm::pseudo_targets(&p, f) & bit(t) != 0 && p.col[p.stm as usize] & bit(f) != 0, "@(pawn|knight|bishop|rook|queen|king)_c pseudo-legal but illegal");
 }
 
+// ------------------------------------------------------------------ per-generator forms (quick tier)
+//
+// The public entry point `generate_moves_for` contains all thirteen generator
+// instances (six kinds x in-check variants + king in double check); one query
+// over it needs 8-12 GB. The quick tier therefore decides the same statement
+// compositionally: (1) the dispatch layer, for every board value, mask and abort
+// point (c16.rs, generators stubbed); (2) each real generator, reached through
+// the hook, on a single-origin mask holding one of its pieces; (3) each real
+// generator is silent on a mask holding none of its pieces; (4) in double check
+// no non-king move is legal (reference-only lemma). (1)-(4) give exactly what
+// `c01_origin` states about `generate_moves_for`.
+
+/// (2): generator `kind` with `in_check = ck >= 1` on the single-origin mask {f}.
+pub fn c01_gen<N: Nd>(n: &mut N, kind: u8, ck: u8) {
+    let (p, half, full) = sym_accepted(n);
+    let (f, t, pr) = sym_move(n);
+    kind_cube(n, &p, f, kind);
+    ck_cube(n, &p, ck);
+    describe(n, &p, half, full, f, t, pr);
+    let b = board_of(&p, half, full, n.u64());
+    let mut calls = 0u32;
+    let mut count = 0u32;
+    let mut shape_ok = true;
+    let r = b.verif_add_legals(kind, ck >= 1, sq(f).bitboard(), &mut |pm: PieceMoves| {
+        calls += 1;
+        shape_ok &= !pm.is_empty() && pm.to.0 != 0 && pm.from as u8 == f;
+        shape_ok &= pm.piece as u8 == kind;
+        if in_batch(&pm, f, t, pr) {
+            count += 1;
+        }
+        false
+    });
+    let legal = refm::legal(&p, f, t, pr);
+    assert!(!r);
+    assert!(shape_ok);
+    assert!(count == legal as u32);
+    assert!(calls <= 2);
+    let ep_attacker = p.ep < 8 && refm::pawn_att(bit(f), p.stm as usize) & bit(refm::ep_square(&p)) != 0;
+    assert!(calls < 2 || (kind as usize == PAWN && ep_attacker));
+    vcover!(legal, "@(pawn|knight|bishop|rook|queen)_c[01]|king a legal move");
+    vcover!(legal && p.col[p.stm as usize] & bit(t) != 0, "@king_c0 a legal castling move");
+    vcover!(legal && pr != 0, "@pawn_c[01] a legal promotion");
+    vcover!(legal && p.ep < 8 && t == refm::ep_square(&p), "@pawn_c[01] a legal en passant capture");
+    vcover!(!legal && refm::pseudo_targets(&p, f) & bit(t) != 0, "pseudo-legal but illegal");
+}
+
+/// (2) for the abort contract: the listener answers true at call index `stop`.
+pub fn c16_gen_abort<N: Nd>(n: &mut N, kind: u8, ck: u8) {
+    let (p, half, full) = sym_accepted(n);
+    let f = n.u8();
+    n.assume(f < 64);
+    kind_cube(n, &p, f, kind);
+    ck_cube(n, &p, ck);
+    let stop = n.u8();
+    n.assume(stop < 2);
+    describe(n, &p, half, full, f, f, 0);
+    let b = board_of(&p, half, full, n.u64());
+    let mut calls = 0u8;
+    let r = b.verif_add_legals(kind, ck >= 1, sq(f).bitboard(), &mut |_pm: PieceMoves| {
+        calls += 1;
+        calls == stop + 1
+    });
+    assert!(calls <= stop + 1);
+    assert!(r == (calls == stop + 1));
+    vcover!(r && stop == 1, "@pawn_c[01] abort at the second of two batches");
+    vcover!(!r && calls == 1, "@(pawn|knight|bishop|rook|queen)_c[01]|king one batch, no abort");
+}
+
+/// (3): a generator is silent on a mask that holds none of its pieces.
+pub fn c16_silent<N: Nd>(n: &mut N, kind: u8, ck: u8) {
+    let (p, half, full) = sym_accepted(n);
+    ck_cube(n, &p, ck);
+    let mask = n.u64();
+    n.assume(mask & p.pc[kind as usize] & p.col[p.stm as usize] == 0);
+    describe(n, &p, half, full, 0, 0, 0);
+    let b = board_of(&p, half, full, n.u64());
+    let mut calls = 0u8;
+    let r = b.verif_add_legals(kind, ck >= 1, BitBoard(mask), &mut |_pm: PieceMoves| {
+        calls += 1;
+        false
+    });
+    assert!(!r && calls == 0);
+    vcover!(mask != 0 && p.ep < 8, "non-empty mask with an en passant file");
+}
+
+/// (4): with two or more checkers only king moves are legal (reference-only).
+pub fn c01_double_check_ref<N: Nd>(n: &mut N) {
+    let (p, _half, _full) = sym_accepted(n);
+    let (f, t, pr) = sym_move(n);
+    ck_cube(n, &p, 2);
+    n.assume(p.king_bb(p.stm as usize) != bit(f));
+    assert!(!refm::legal(&p, f, t, pr));
+}
+
 fn kind_is(p: &Pos, f: u8, k: usize) -> bool {
     p.pc[k] & p.col[p.stm as usize] & bit(f) != 0
 }
@@ -442,6 +536,46 @@ macro_rules! bproofs {
 }
 
 bproofs! {
+    c01_gen_pawn_c0 => |n: &mut _| c01_gen(n, 0, 0);
+    c16_gen_abort_pawn_c0 => |n: &mut _| c16_gen_abort(n, 0, 0);
+    c16_silent_pawn_c0 => |n: &mut _| c16_silent(n, 0, 0);
+    c01_gen_pawn_c1 => |n: &mut _| c01_gen(n, 0, 1);
+    c16_gen_abort_pawn_c1 => |n: &mut _| c16_gen_abort(n, 0, 1);
+    c16_silent_pawn_c1 => |n: &mut _| c16_silent(n, 0, 1);
+    c01_gen_knight_c0 => |n: &mut _| c01_gen(n, 1, 0);
+    c16_gen_abort_knight_c0 => |n: &mut _| c16_gen_abort(n, 1, 0);
+    c16_silent_knight_c0 => |n: &mut _| c16_silent(n, 1, 0);
+    c01_gen_knight_c1 => |n: &mut _| c01_gen(n, 1, 1);
+    c16_gen_abort_knight_c1 => |n: &mut _| c16_gen_abort(n, 1, 1);
+    c16_silent_knight_c1 => |n: &mut _| c16_silent(n, 1, 1);
+    c01_gen_bishop_c0 => |n: &mut _| c01_gen(n, 2, 0);
+    c16_gen_abort_bishop_c0 => |n: &mut _| c16_gen_abort(n, 2, 0);
+    c16_silent_bishop_c0 => |n: &mut _| c16_silent(n, 2, 0);
+    c01_gen_bishop_c1 => |n: &mut _| c01_gen(n, 2, 1);
+    c16_gen_abort_bishop_c1 => |n: &mut _| c16_gen_abort(n, 2, 1);
+    c16_silent_bishop_c1 => |n: &mut _| c16_silent(n, 2, 1);
+    c01_gen_rook_c0 => |n: &mut _| c01_gen(n, 3, 0);
+    c16_gen_abort_rook_c0 => |n: &mut _| c16_gen_abort(n, 3, 0);
+    c16_silent_rook_c0 => |n: &mut _| c16_silent(n, 3, 0);
+    c01_gen_rook_c1 => |n: &mut _| c01_gen(n, 3, 1);
+    c16_gen_abort_rook_c1 => |n: &mut _| c16_gen_abort(n, 3, 1);
+    c16_silent_rook_c1 => |n: &mut _| c16_silent(n, 3, 1);
+    c01_gen_queen_c0 => |n: &mut _| c01_gen(n, 4, 0);
+    c16_gen_abort_queen_c0 => |n: &mut _| c16_gen_abort(n, 4, 0);
+    c16_silent_queen_c0 => |n: &mut _| c16_silent(n, 4, 0);
+    c01_gen_queen_c1 => |n: &mut _| c01_gen(n, 4, 1);
+    c16_gen_abort_queen_c1 => |n: &mut _| c16_gen_abort(n, 4, 1);
+    c16_silent_queen_c1 => |n: &mut _| c16_silent(n, 4, 1);
+    c01_gen_king_c0 => |n: &mut _| c01_gen(n, 5, 0);
+    c16_gen_abort_king_c0 => |n: &mut _| c16_gen_abort(n, 5, 0);
+    c16_silent_king_c0 => |n: &mut _| c16_silent(n, 5, 0);
+    c01_gen_king_c1 => |n: &mut _| c01_gen(n, 5, 1);
+    c16_gen_abort_king_c1 => |n: &mut _| c16_gen_abort(n, 5, 1);
+    c16_silent_king_c1 => |n: &mut _| c16_silent(n, 5, 1);
+    c01_gen_king_c2 => |n: &mut _| c01_gen(n, 5, 2);
+    c16_gen_abort_king_c2 => |n: &mut _| c16_gen_abort(n, 5, 2);
+    c16_silent_king_c2 => |n: &mut _| c16_silent(n, 5, 2);
+    c01_double_check_ref => |n: &mut _| c01_double_check_ref(n);
     c01_origin_pawn_c0 => |n: &mut _| c01_origin(n, 0, 0);
     c01_origin_pawn_c1 => |n: &mut _| c01_origin(n, 0, 1);
     c01_origin_pawn_c2 => |n: &mut _| c01_origin(n, 0, 2);
